@@ -27,6 +27,21 @@ Proof.
   - unfold ten_s in *. lia.
 Qed.
 
+(* which of format parameter and Content-Type header wins *)
+Lemma select_format_ct_tree : forall fmt, select_format fmt ct_tree = FTree.
+Proof. intros. unfold select_format. destruct (beqb fmt v_tree); reflexivity. Qed.
+
+Lemma select_format_ct_trie : forall fmt, beqb fmt v_tree = false -> select_format fmt ct_trie = FTrie.
+Proof. intros fmt H. unfold select_format. rewrite H. destruct (beqb fmt v_trie); reflexivity. Qed.
+
+Lemma select_format_param_tree : forall ct, select_format v_tree ct = FTree.
+Proof. intros. reflexivity. Qed.
+
+Lemma select_format_text : forall fmt ct, beqb fmt v_tree = false -> beqb fmt v_trie = false ->
+  beqb ct ct_tree = false -> beqb ct ct_trie = false ->
+  select_format fmt ct = if beqb fmt v_lines then FLines else FGroups.
+Proof. intros fmt ct H1 H2 H3 H4. unfold select_format. rewrite H1, H2, H3, H4. reflexivity. Qed.
+
 Section HandlerProofs.
   Variables (tree key meta state : Type).
   Variable parse_key : bytes -> key.
